@@ -313,7 +313,13 @@ func WellTypedSection(t *rapid.T, ci ConfigurableInfo, vals map[string]interface
 // IllTypedSection renders something under the lint's name that cannot be
 // applied to it. Returns the TOML and a label for the shape.
 func IllTypedSection(t *rapid.T, ci ConfigurableInfo) (string, string) {
-	switch rapid.IntRange(0, 5).Draw(t, "illkind") {
+	switch rapid.IntRange(0, 7).Draw(t, "illkind") {
+	case 6:
+		// every other TOML value that is not a table: empty / nested / mixed arrays, date, float, bool
+		v := rapid.SampledFrom([]string{"[]", "[[]]", "[[1], []]", "[[], [[]]]", `["a", "b"]`, "1979-05-27T07:32:00Z", "1.5", "true", `""`, "0", "-1", "[1.5]", "[true]", `[ [ "x" ] ]`}).Draw(t, "illval")
+		return fmt.Sprintf("%s = %s\n", ci.Name, v), "value:" + v
+	case 7:
+		return fmt.Sprintf("[[%s]]\n[[%s]]\n", ci.Name, ci.Name), "array-of-empty-tables"
 	case 0:
 		return fmt.Sprintf("%s = 5\n", ci.Name), "scalar-int"
 	case 1:
